@@ -161,6 +161,10 @@ def structure_cases():
     add('out str[4] s; out int n = 0; parser { loop { "a"; if n == 1 { break; } } s += [65]; "b"; }', "append after a loop left by a conditional break")
     add('yieldcode T; out int x = 0; parser { loop { /./; if x == 1 { yield T; } } }', "yield inside an if")
     add('parser { optional { end; } end; }', "ambiguous end patterns")
+    add('out int n = 0; parser { loop { "a"; if n == 1 { finish; } else { break; } } "b"; }', "finish and break in one action-only if")
+    add('out int n = 0; finishcode F; parser { loop { "a"; n = [n + 1]; if n == 1 { finish F; } elif n == 2 { break; } else { n = 0; } } "b"; }', "finish, break and assignment in one if")
+    add('out int n = 0; out str[3] s; parser { try { "a"; if n == 1 { s += [65]; } else { finish; } "c"; } catch (outofspace) { "x"; } }', "append and finish in one action-only if inside try")
+    add('out int n = 0; out str[3] s; hook h; parser { loop { try { s += /a/; if s.len == 2 { break; } else { h(); } } catch (outofspace) { finish; } } "z"; }', "break next to an append in a try")
     add('parser { optional { "a"; } /[a-c]/; }', "ambiguity diagnostics on a range")
     add('parser { case { /[a-f]+/ -> {} "abc" -> {} } }', "ambiguous case with ranges")
     add('parser { "a"; end; }', "end after a match")
@@ -217,7 +221,7 @@ def corpus_swaps(tier, seed):
 
 def check(item):
     src, why, argv = item
-    o = loader.compile_source(src, argv, codegen=True, timeout=20)
+    o = loader.compile_source(src, argv, codegen=True, timeout=5 if "contradictory" in why else 20)
     res = dict(kind=o.kind, detail=o.detail[:160], where=getattr(o, "where", None), cls=getattr(o, "cls", None))
     if o.kind == "diagnosed" and not o.message:
         res["kind"] = "internal"
@@ -236,6 +240,10 @@ def run(tier, seed):
         osets = OPTSETS if (tier == "thorough" or i % 5 == seed % 5) else [OPTSETS[0], OPTSETS[1 + i % 6]]
         for o in osets:
             items.append((s, w, a + [x for x in o if x not in a]))
+    # contradictory option sets (a flag requested together with the negation of what it implies) on a few programs
+    for s_, w_, a_ in cases[:12]:
+        for o in (["-fyield-support", "-fno-indirect-start-ptr"], ["-fallocate-str-space-dynamic", "-fno-dynamic-memory"], ["-fallocate-str-space-dynamic-on-demand", "-fno-allocate-str-space-dynamic"]):
+            items.append((s_, w_ + " / contradictory options", a_ + o))
     outcomes = {}
     for idx, r in pmap(check, items, timeout=120, chunksize=32, stop=ck.enough):
         if "harness_error" in r or "harness_timeout" in r:
